@@ -440,7 +440,28 @@ class KwStream(Stream):
         if r != r2:
             return Failure("cached-plain-differ", f"{r!r} vs {r2!r}", pl)
         plain = r2 if pl["cached"] else r
-        return judge(e, r, env, sd, pl, plain=plain)
+        f = judge(e, r, env, sd, pl, plain=plain)
+        if f is not None:
+            return f
+        # "names that are not mentioned are left alone": a call must not leave anything behind — the
+        # caller's own mapping object is reused for a second call WITHOUT the keywords, which must
+        # behave like a call with a fresh copy of the mapping
+        from pymbolic.mapper.substitutor import (CachedSubstitutionMapper, SubstitutionMapper,
+                                                 substitute)
+        cls = CachedSubstitutionMapper if pl["cached"] else SubstitutionMapper
+        kw = {n: sx_to_expr(loads(v)) for n, v in pl["kw"]}
+        mine = sigma_to_dict(pl["sigma"])
+        try:
+            substitute(e, mine, mapper_cls=cls, **kw)
+            again = substitute(e, mine, mapper_cls=cls)
+            fresh = substitute(e, sigma_to_dict(pl["sigma"]), mapper_cls=cls)
+        except Exception as ex:
+            return Failure("subst-raises", repr(ex), pl)
+        if again != fresh or list(mine.items()) != list(sigma_to_dict(pl["sigma"]).items()):
+            return Failure("subst-call-leaves-state-behind",
+                           f"after substitute(e, d, **{sorted(kw)}) the caller's d is {mine!r}; "
+                           f"substitute(e, d) gives {again!r}, with a fresh d {fresh!r}", pl)
+        return None
 
     def shrink(self, pl):
         sg = pl["sigma"]
